@@ -10,7 +10,7 @@ from props import trace_run
 from vf.core import Ctx
 
 
-def run_scenarios(ctx: Ctx, base: List[dict], drops_per: int, seeds_per: int) -> None:
+def run_scenarios(ctx: Ctx, base: List[dict], drops_per: int, seeds_per: int, extra_faulty: List[dict] = ()) -> List[dict]:  # type: ignore[assignment]
     # 1. fault-free runs (give the number of datagrams of each scenario)
     ref = trace_run.record_all('props.linkfam', 'Recorder', base, 16 if ctx.thorough else 8)
     rng = random.Random(ctx.seed * 31 + 7)
@@ -41,6 +41,7 @@ def run_scenarios(ctx: Ctx, base: List[dict], drops_per: int, seeds_per: int) ->
             f['fault'] = {'max_delay': 100, 'dup_permille': rng.choice([0, 100, 300]),
                           'drop': rng.randint(1, max(1, n)) if rng.random() < 0.7 else 0, 'drop_for': 'all'}
             faulty.append(f)
+    faulty += list(extra_faulty)
     ctx.log('%d scenarios, %d fault-free datagrams in total, %d faulty runs' % (len(base), sum(t['nsend'] for t in ref), len(faulty)))
     ftr = trace_run.record_all('props.linkfam', 'Recorder', faulty, 16)
     scenarios += faulty[:len(ftr)]
@@ -50,6 +51,8 @@ def run_scenarios(ctx: Ctx, base: List[dict], drops_per: int, seeds_per: int) ->
 
     def disc(sc: dict, tr: dict, clause: str, pos: int) -> str:
         f = sc.get('fault') or {}
+        if sc.get('model'):
+            return 'single-loss' if f.get('drop_match') else 'fault-free'
         return 'fault-free' if not f else ('single-loss' if f.get('drop') and not f.get('max_delay') else 'delay-dup-loss')
     res = trace_run.triage(ctx, 'C07', scenarios, traces, verdicts, disc)
     cov = ctx.coverage
@@ -67,6 +70,7 @@ def run_scenarios(ctx: Ctx, base: List[dict], drops_per: int, seeds_per: int) ->
     cov.update(res)
     ctx.assumptions += ['all hosts are real library instances in one virtual-time simulator; own multicasts loop back at once and are never lost',
                         'settling times are constants of the scenario: 16 s after registrations / browser starts, 2.5 s after withdrawals']
+    return traces
 
 
 def late_browser(sid: str, variant: int) -> dict:
@@ -107,7 +111,25 @@ def run(ctx: Ctx) -> None:
     base = [late_browser('c07-late-%d' % k, k) for k in range(ctx.pick(2, 6))]
     base += [churn('c07-churn-%d' % k, k) for k in range(ctx.pick(8, 16))]
     base += [lf.gen_link(rng, 'c07-%d' % k, ctx.thorough) for k in range(ctx.pick(8, 120))]
-    run_scenarios(ctx, base, ctx.pick(40, 0), ctx.pick(2, 3))
+    from props import linkmodel as lm
+    # binding 1: the design-level model of discovery on a lossy link (one and two losses are tolerated, three are not, and one
+    # is not when a single goodbye is sent)
+    info = lm.check_models(ctx)
+    ctx.log('Link model: %d distinct states; convergence holds for 1 and 2 lost datagrams; %s'
+            % (info['model_distinct'], info['defect_config_violates']))
+    # binding 2: every behaviour of its replay configuration (browser start x unregistration x lost datagram) on real instances
+    mscs, predicted = lm.model_scenarios(ctx)
+    traces = run_scenarios(ctx, base, ctx.pick(40, 0), ctx.pick(2, 3), mscs)
+    d = lm.drift(traces, predicted)
+    for x in d[:5]:
+        print('MODEL-DRIFT property=C07 scenario=%s real callbacks %s, model predicts %s (evidence, not a verdict: the exhaustively '
+              'checked model Link.tla no longer describes discovery between two instances)' % (x['scenario'], x['real'], x['model']))
+    ctx.coverage.update(info)
+    ctx.coverage.update({'model_behaviours_replayed': len(mscs), 'model_drift': len(d), 'model_drift_samples': d[:3],
+                         'model_constants': '1 responder, 1 browsing host joining at 10-11 instants, unregistration at 7-8 instants or '
+                                            'never, up to 1 (replay) / 2 (exhaustive) lost datagrams of any kind (announcement, answer, '
+                                            'unicast reply, query, goodbye)'})
+    ctx.log('model behaviours replayed on real instances: %d, drift: %d' % (len(mscs), len(d)))
 
 
 def replay(ctx: Ctx, path: str) -> None:
